@@ -351,7 +351,7 @@ def run_one(ns, i, seed_i, tier):
     # rule 2: configuration invariance
     if not violations:
         for _ in range(rng.randint(3, 5) if not expensive else 1):
-            argv2, fmt = cliwork.variant_argv(op["argv"], case["info"], rng)
+            argv2, fmt = cliwork.variant_argv(op["argv"], case["info"], rng, issued=set(d[1] for d in obs0["diags"]))
             op2 = dict(op, argv=argv2)
             obsv = run(ns, op2)
             account(obsv, "variant")
